@@ -141,3 +141,10 @@ package wamp
 
 //@ iface (Peer) Close
 //@   modifies ghost closed
+
+//@ func AsString
+//@   pure
+//@   ensures [string] is(v, string) ==> result1 && result0 == v.(string)
+//@   ensures [uri]    is(v, URI) ==> result1 && result0 == v.(URI)
+//@   ensures [other]  !is(v, string) && !is(v, URI) && !is(v, []byte) ==> !result1
+//@   ensures [fail-empty] !result1 ==> result0 == ""
